@@ -38,8 +38,54 @@ func ruleQuasiquoteFresh(c *Ctx, rule string) {
 			ord++
 			n++
 			key := fmt.Sprintf("%s/closure%d", fk, ord)
-			isLocal := func(o types.Object) bool {
-				return o != nil && o.Pos() > lit.Pos() && o.Pos() < lit.End()
+			// a local is fresh when it is declared in the closure and every value assigned to it is allocated
+			// there (a call such as X.New(), a literal, or another fresh local): `out := form` is an alias
+			var isLocal func(o types.Object) bool
+			visiting := map[types.Object]bool{}
+			isLocal = func(o types.Object) bool {
+				if o == nil || !(o.Pos() > lit.Pos() && o.Pos() < lit.End()) {
+					return false
+				}
+				if visiting[o] {
+					return true
+				}
+				visiting[o] = true
+				defer delete(visiting, o)
+				fresh := true
+				ast.Inspect(lit.Body, func(m ast.Node) bool {
+					as, ok := m.(*ast.AssignStmt)
+					if !ok || len(as.Lhs) != len(as.Rhs) {
+						return true
+					}
+					for i, l := range as.Lhs {
+						id := identOf(l)
+						if id == nil || !(info.Defs[id] == o || info.Uses[id] == o) {
+							continue
+						}
+						e := unparen(as.Rhs[i])
+						if ta, ok := e.(*ast.TypeAssertExpr); ok {
+							e = unparen(ta.X)
+						}
+						switch x := e.(type) {
+						case *ast.CallExpr, *ast.CompositeLit:
+						case *ast.UnaryExpr:
+							if _, isCl := unparen(x.X).(*ast.CompositeLit); !isCl {
+								fresh = false
+							}
+						case *ast.Ident:
+							if !isLocal(info.Uses[x]) {
+								fresh = false
+							}
+						default:
+							root, _ := lhsRoot(info, e)
+							if !isLocal(root) {
+								fresh = false
+							}
+						}
+					}
+					return true
+				})
+				return fresh
 			}
 			var bad []string
 			mutations := 0
@@ -607,6 +653,76 @@ func ruleNestedUnquoteWalks(c *Ctx, rule string) {
 	c.Ob(rule, "base.DescendNestedUnquotes~CollectNestedUnquotes", fa, ok, "the function that counts nested unquotes and the one that collects their tokens continue under the same conditions, so depth == len(tokens) "+diff)
 }
 
+// ruleNestedQuoteOrder (T4b): CollectNestedUnquotes records the tokens from the outermost unquote inwards (it appends, then
+// descends); MakeNestedQuote therefore rebuilds the stack from the last token to the first, wrapping the innermost first.
+func ruleNestedQuoteOrder(c *Ctx, rule string) {
+	pk := c.P.Pkg("base")
+	if pk == nil {
+		return
+	}
+	info := pk.TypesInfo
+	// collection order: in the loop body of CollectNestedUnquotes the append precedes the descent (unquote = expr)
+	cf := c.P.Func("base.CollectNestedUnquotes")
+	outerFirst := false
+	if cf != nil {
+		ast.Inspect(cf.Body, func(nd ast.Node) bool {
+			f, ok := nd.(*ast.ForStmt)
+			if !ok {
+				return true
+			}
+			appendPos, descendPos := token.NoPos, token.NoPos
+			ast.Inspect(f.Body, func(m ast.Node) bool {
+				if as, ok := m.(*ast.AssignStmt); ok && len(as.Lhs) == 1 && len(as.Rhs) == 1 {
+					if call, ok := unparen(as.Rhs[0]).(*ast.CallExpr); ok && exprString(call.Fun) == "append" && appendPos == token.NoPos {
+						appendPos = as.Pos()
+					}
+					if id := identOf(as.Lhs[0]); id != nil && len(cf.Type.Params.List) > 0 && info.Uses[id] == info.Defs[cf.Type.Params.List[0].Names[0]] {
+						descendPos = as.Pos()
+					}
+				}
+				return true
+			})
+			outerFirst = appendPos != token.NoPos && descendPos != token.NoPos && appendPos < descendPos
+			return false
+		})
+	}
+	c.Ob(rule, "base.CollectNestedUnquotes/outer-first", cf, outerFirst, "the tokens of a stack of nested unquotes are recorded from the outermost inwards")
+	mf := c.P.Func("base.MakeNestedQuote")
+	innerFirst := false
+	if mf != nil {
+		ast.Inspect(mf.Body, func(nd ast.Node) bool {
+			f, ok := nd.(*ast.ForStmt)
+			if !ok || f.Init == nil || f.Cond == nil || f.Post == nil {
+				return true
+			}
+			init, _ := f.Init.(*ast.AssignStmt)
+			cond, _ := unparen(f.Cond).(*ast.BinaryExpr)
+			post, _ := f.Post.(*ast.IncDecStmt)
+			if init == nil || cond == nil || post == nil || len(init.Rhs) != 1 {
+				return true
+			}
+			i := exprString(init.Lhs[0])
+			start := strings.ReplaceAll(exprString(init.Rhs[0]), " ", "")
+			v, isC := constInt(info, cond.Y)
+			down := strings.HasPrefix(start, "len(") && strings.HasSuffix(start, ")-1") && cond.Op == token.GEQ && isC && v == 0 && post.Tok == token.DEC
+			// body wraps the accumulated form with token i
+			wraps := false
+			inspectCalls(f.Body, func(call *ast.CallExpr) {
+				if fn := calleeOf(info, call); fn != nil && fn.Name() == "MakeQuote" {
+					for _, a := range call.Args {
+						if ix, ok := unparen(a).(*ast.IndexExpr); ok && exprString(ix.Index) == i {
+							wraps = true
+						}
+					}
+				}
+			})
+			innerFirst = down && wraps
+			return false
+		})
+	}
+	c.Ob(rule, "base.MakeNestedQuote/inner-first", mf, innerFirst, "the stack is rebuilt from the last recorded token to the first (index len-1 down to 0), wrapping the innermost first")
+}
+
 func init() {
 	register(&PropDef{
 		ID:    "C21",
@@ -614,7 +730,7 @@ func init() {
 		Explanation: "Decided (structural clauses): T1 freshness: every run-time closure built by fast/quasiquote.go applies Set/Append only to nodes it created itself in the same execution (locals obtained from New() or a literal) and never assigns through a captured compile-time tree, so each evaluation returns a fresh tree; " +
 			"T2 depth table agreement: in the fast interpreter QUASIQUOTE deepens by one, UNQUOTE / UNQUOTE_SPLICE lift by one and the body is compiled as code exactly when the resulting depth is <= 0; the classic interpreter recurses with depth+1 below QUASIQUOTE, depth-1 below UNQUOTE / UNQUOTE_SPLICE and evaluates a single unquote exactly when depth <= 1 (the same table), and in list context compares the unquote nesting u with the depth (error / rebuild / evaluate for u >, <, == depth); " +
 			"T3 splicing: children of a list node are expanded with canSplice = true and children of a fixed-arity node with canSplice = false; every splice loop (fast, fast quote-of-splice, classic) appends elements 0..Size()-1 in order; classic rejects a splice outside a list; " +
-			"T4 DescendNestedUnquotes and CollectNestedUnquotes continue under identical conditions (depth == number of collected tokens). " +
+			"T4 DescendNestedUnquotes and CollectNestedUnquotes continue under identical conditions (depth == number of collected tokens); the tokens are collected outermost first and MakeNestedQuote rebuilds the stack from the last token to the first. " +
 			"Not decided: the tree produced for a given template (pairing of nested unquotes, simplification of trivial blocks), equality of the trees of the two interpreters.",
 		Assumptions: []string{"ast2 wrappers: New() allocates a new node (C22)"},
 		Rules: []func(*Ctx){func(c *Ctx) {
@@ -622,6 +738,7 @@ func init() {
 			ruleQuasiquoteDepth(c, "T2-depth-table")
 			ruleQuasiquoteSplice(c, "T3-splice")
 			ruleNestedUnquoteWalks(c, "T4-nested-walk")
+			ruleNestedQuoteOrder(c, "T4-nested-walk")
 		}},
 		Technique: "AST/type-resolved custom analysis: ownership of mutated nodes inside run-time closures, extraction and comparison of the depth tables of two sibling implementations, loop-shape checks, sibling agreement of two chain walks",
 		Mutants: []Mutant{
@@ -632,6 +749,7 @@ func init() {
 			{Name: "splice-drops-first-element", File: "fast/quasiquote.go", Old: "\t\t\t\t\tfor j := 0; j < n; j++ {\n\t\t\t\t\t\tif xj := xs.Get(j); xj != nil {", New: "\t\t\t\t\tfor j := 1; j < n; j++ {\n\t\t\t\t\t\tif xj := xs.Get(j); xj != nil {"},
 			{Name: "node-children-may-splice", File: "fast/quasiquote.go", Old: "fun := c.quasiquote1(form, depth, false).AsX1()", New: "fun := c.quasiquote1(form, depth, true).AsX1()"},
 			{Name: "collect-ignores-unquote-splice", File: "base/quasiquote.go", Old: "if op := expr.X.Op; op == etoken.UNQUOTE || op == etoken.UNQUOTE_SPLICE {", New: "if op := expr.X.Op; op == etoken.UNQUOTE {"},
+			{Name: "nested-quote-rebuilt-outside-in", File: "base/quasiquote.go", Old: "for i := len(toks) - 1; i >= 0; i-- {", New: "for i := 0; i < len(toks); i++ {"},
 			{Name: "compile-threshold-off-by-one", File: "fast/quasiquote.go", Old: "\t\t\tif depth <= 0 {\n\t\t\t\tif debug {\n\t\t\t\t\tc.Debugf(\"Quasiquote[%d]%s compiling", New: "\t\t\tif depth <= 1 {\n\t\t\t\tif debug {\n\t\t\t\t\tc.Debugf(\"Quasiquote[%d]%s compiling"},
 		},
 	})
